@@ -1,5 +1,7 @@
 use crate::runner::{CheckDef, Tier};
 
+pub mod c07;
+pub mod c08;
 pub mod c09;
 pub mod c11;
 
@@ -10,6 +12,8 @@ pub const ALL: [&str; 19] = [
 
 pub fn get(id: &str, tier: Tier) -> Option<CheckDef> {
     Some(match id {
+        "C07" => c07::def(tier),
+        "C08" => c08::def(tier),
         "C09" => c09::def(tier),
         "C11" => c11::def(tier),
         _ => return None,
